@@ -558,6 +558,8 @@ class Engine:
         else:
             self.state = store
             self.state.set_value(self.initial_state)
+            # variables of children the initial state has just created
+            self.state.apply_defaults()
             # build the processes' views
             self.state.build_topology_views()
             # get processes and topology from the store
